@@ -1293,4 +1293,29 @@ theorem mem_le_sum (sizes : List Nat) : ∀ s ∈ sizes, s ≤ sizes.sum := by
     | head => omega
     | tail _ hm => have := ih s hm; omega
 
+/-! ## GetRows accounting -/
+
+theorem getRowsLoop_inv (iters : List Bool) : ∀ (len : Nat) (cur maxVal : Int),
+    (len : Int) = maxVal → 0 ≤ maxVal → maxVal ≤ cur →
+    ∃ len' maxVal', getRowsLoop iters len cur maxVal = .ok (len', maxVal') ∧ (len' : Int) = maxVal' ∧
+      0 ≤ maxVal' ∧ maxVal' ≤ cur + (iters.length : Int) := by
+  induction iters with
+  | nil => intro len cur maxVal h1 h2 h3; exact ⟨len, maxVal, rfl, h1, h2, by simpa using h3⟩
+  | cons b rest ih =>
+    intro len cur maxVal h1 h2 h3
+    unfold getRowsLoop
+    simp only
+    cases b with
+    | true =>
+      simp only [if_true]
+      split
+      · obtain ⟨l, m, e, a, c, d⟩ := ih (len + (cur + 1 - maxVal - 1).toNat + 1) (cur + 1) (cur + 1) (by omega) (by omega) (Int.le_refl _)
+        exact ⟨l, m, e, a, c, by simp only [List.length_cons]; omega⟩
+      · obtain ⟨l, m, e, a, c, d⟩ := ih (len + 1) (cur + 1) (cur + 1) (by omega) (by omega) (Int.le_refl _)
+        exact ⟨l, m, e, a, c, by simp only [List.length_cons]; omega⟩
+    | false =>
+      simp only [Bool.false_eq_true, if_false]
+      obtain ⟨l, m, e, a, c, d⟩ := ih len (cur + 1) maxVal h1 h2 (by omega)
+      exact ⟨l, m, e, a, c, by simp only [List.length_cons]; omega⟩
+
 end XlModel.Decode
